@@ -55,19 +55,15 @@ end Ledger
 
 /-- The check an event must pass against the ledger of the events before it.
 * a buffer ENTERS only with a never-seen identity and a non-zero capacity;
-* `freeBuf b` / the old side of `growBuf` only for a buffer that is in the system;
-* `exportBuf b`: `b` is in the system — **or `b` was never seen** (degenerate: the model emits
-  `exportBuf` also for a capacity-0 `Vec`, which owns no allocation);
-* `write b lo hi`: `lo ≤ hi`, and `b` is in the system with `hi ≤` its recorded capacity — **or
-  `hi = 0` and `b` was never seen** (degenerate: the model emits a zero-length `write` on a
-  capacity-0 `Vec`). -/
+* `freeBuf b` / `exportBuf b` / the old side of `growBuf` only for a buffer that is in the system;
+* `write b lo hi`: `lo ≤ hi`, and `b` is in the system with `hi ≤` its recorded capacity. -/
 def EvGood (L : Ledger) : Event → Prop
   | .allocBuf b c => 0 < c ∧ b ∉ L.ids
   | .importBuf b c => 0 < c ∧ b ∉ L.ids
   | .growBuf old new c => old ∈ L.liveIds ∧ new ∉ L.ids ∧ 0 < c
   | .freeBuf b => b ∈ L.liveIds
-  | .exportBuf b => b ∈ L.liveIds ∨ b ∉ L.ids
-  | .write b lo hi => lo ≤ hi ∧ ((∃ c, (b, c) ∈ L.live ∧ hi ≤ c) ∨ (hi = 0 ∧ b ∉ L.ids))
+  | .exportBuf b => b ∈ L.liveIds
+  | .write b lo hi => lo ≤ hi ∧ ∃ c, (b, c) ∈ L.live ∧ hi ≤ c
   | .allocInner _ => True
   | .freeInner _ => True
 
